@@ -414,12 +414,12 @@ def embedImage (env : Env) (s : St) (id : Nat) : St × Nat :=
 
 /-- `DrawImage` -/
 def drawImage (env : Env) (s : St) (p : Page) (id : Nat) (clip cm a1pr : Bytes) : St :=
-  let p1 := p.write clip
+  let p0 := p.setAlpha env.alpha1 a1pr      -- before `q` (5295a66)
+  let p1 := p0.write clip
   let e := embedImage env s id
   let name : Bytes := asc "Im" ++ natBytes p1.xobjs.length
   let p2 := { p1 with xobjs := p1.xobjs ++ [(name, e.2)], uses := p1.uses ++ [(2, name)] }
-  let p3 := p2.setAlpha env.alpha1 a1pr
-  { e.1 with page := some (p3.write (cm ++ asc " cm /" ++ name ++ asc " Do Q")) }
+  { e.1 with page := some (p2.write (cm ++ asc " cm /" ++ name ++ asc " Do Q")) }
 
 /-- One writer/page operation; `none` = the real code panics. -/
 def step (env : Env) (s : St) : Op → Option St
